@@ -195,11 +195,42 @@ def run_case(case, drv):
     if spec["start"] == "S" and case["pseed"] % 4 == 0 and len(rules) <= 6:
         ws = words_of(spec)
         for text, pred in [(("(a|b)*", lambda w: True), ("a*", lambda w: all(c == "a" for c in w)),
-                            ("b (a|b)*", lambda w: w[:1] == ("b",)))[case["pseed"] % 3]]:
+                            ("b (a|b)*", lambda w: w[:1] == ("b",)), ("a", lambda w: w == ("a",)),
+                            ("b", lambda w: w == ("b",)), ("a*", lambda w: all(c == "a" for c in w)))[case["pseed"] % 6]]:
+            kept = {}
+
             def run_i(text=text):
                 g = IndexedGrammar(Rules([mk_rule(r) for r in rules]), "S")
-                return g.intersection(Regex(text)).is_empty()
+                fst_ = Regex(text).to_epsilon_nfa().to_fst()
+                kept["fst"] = fst_
+                ig_ = fst_.intersection(g)
+                kept["ig"] = ig_
+                return ig_.is_empty()
             got = outcome(run_i, limit=8.0)
+            # structural tie with the triple-construction model (Pfl/Model/IndexedInter.lean): same transducer,
+            # same rules after remove_useless_rules, same verdict
+            if got[0] == "ok" and "ig" in kept and len(kept["fst"].states) <= 4:
+                fst_ = kept["fst"]
+                tj = {"states": [repr(q) for q in fst_.states], "starts": [repr(q) for q in fst_.start_states],
+                      "finals": [repr(q) for q in fst_.final_states],
+                      "delta": [[repr(k[0]), (None if k[1] == "epsilon" else k[1]), repr(t[0]), list(t[1])]
+                                for k, ts in fst_._delta.items() for t in ts]}  # pylint: disable=protected-access
+                st_m, mi = outcome(lambda: drv.call("ig.inter", _timeout=8.0, rules=rules, start="S", T=tj), limit=10.0)
+                if st_m == "ok":
+                    res.corr += 1
+                    # the output word of an end rule is irrelevant for emptiness and printed differently
+                    strip = lambda rs_: sorted({(r[0], r[1]) if r[0] == "end" else tuple(r) for r in rs_})
+                    impl_rules = strip(all_rules(kept["ig"]))
+                    model_rules = strip(mi["rules"])
+                    if strip(impl_rules) != strip(model_rules):
+                        res.corr_break("intersection", "rules differ from the triple-construction model",
+                                       detail={"regex": text, "impl": strip(impl_rules)[:12], "model": strip(model_rules)[:12],
+                                               "n_impl": len(impl_rules), "n_model": len(model_rules)})
+                    elif mi["isEmpty"] is not None and mi["isEmpty"] != got[1]:
+                        res.corr_break("intersection", "verdict differs from the model", detail={"regex": text})
+                    res.tag("inter_tie")
+                else:
+                    res.tag("inter_tie_skipped")
             res.evals += 1
             if got[0] == "timeout":
                 res.tag("inter_timeout")
